@@ -178,11 +178,16 @@ func TestC15(t *testing.T) {
 	evals += gc
 	nontrivial += gn
 	r.Set("grpc_write_retry_scripts", gc)
+	// consecutive connections on the same pair of NoiseGrpcConn objects
+	cc, cn := grpcConsecutive(r)
+	evals += cc
+	nontrivial += cn
+	r.Set("consecutive_connection_histories", cc)
 
 	r.Set("evaluations", evals)
 	r.Set("distinct_nontrivial", nontrivial)
 	r.Set("outcome_classes", classes)
-	r.Set("rule", "for NoiseGrpcConn (through ClientHandshake/ServerHandshake), NoiseConn and connKit: every write-size sequence of length <= 3 over {0,1,2,3} x every read-buffer-size sequence of length <= 2 (quick) / 3 (thorough) over {1,2,3,4} (cycled), both directions alternating; boundary writes {0,1,32767,32768,32769,65535,65536(,65537,131071)} x buffers {1,2,7,32768,65536,70000}. Oracle: 0<=n<=len(buf), nothing written beyond the buffer, concatenation read == concatenation of accepted writes, oversize writes rejected or chunked; NoiseConn.Write of more than one record over a transport that times out at one or two of ten offsets per record, the caller flushing and resuming at the reported offset: the peer reads exactly what was written. distinct_nontrivial = passing cases in which some buffer was smaller than some record")
+	r.Set("rule", "for NoiseGrpcConn (through ClientHandshake/ServerHandshake), NoiseConn and connKit: every write-size sequence of length <= 3 over {0,1,2,3} x every read-buffer-size sequence of length <= 2 (quick) / 3 (thorough) over {1,2,3,4} (cycled), both directions alternating; boundary writes {0,1,32767,32768,32769,65535,65536(,65537,131071)} x buffers {1,2,7,32768,65536,70000}. Oracle: 0<=n<=len(buf), nothing written beyond the buffer, concatenation read == concatenation of accepted writes, oversize writes rejected or chunked; NoiseConn.Write of more than one record over a transport that times out at one or two of ten offsets per record, the caller flushing and resuming at the reported offset: the peer reads exactly what was written; histories of two connections on the same pair of NoiseGrpcConn objects (a record of the first read in part or in full; the first connection closed, only its transport closed, or nothing closed yet): the second connection's stream is exactly what was written on it. distinct_nontrivial = passing cases in which some buffer was smaller than some record")
 	r.Set("exhaustive", true)
 	exitCode = r.Finish()
 }
